@@ -174,7 +174,7 @@ REAL_OPS = {
         9: ("seek_data", {DATA}, [0]), 10: ("close", None, [0]), 11: ("free", None, [0]), 12: ("error accessors", None, [0]),
         13: ("header_position", ANYST, [0]), 14: ("add_passphrase", {NEW}, [0]), 15: ("open1", {NEW}, [0]),
         16: ("support_format_tar", {NEW}, [0]), 17: ("support_filter_gzip", {NEW}, [0])},
-    1: {0: ("set_format", {NEW}, [0, 1, 2, 3]), 1: ("add_filter_gzip", {NEW}, [0]), 2: ("set_options", {NEW}, [0, 1, 2]),
+    1: {0: ("set_format", {NEW}, [0, 1, 2, 3]), 1: ("add_filter", {NEW}, [0, 0, 1, 2]), 2: ("set_options", {NEW}, [0, 1, 2]),
         3: ("open_memory", {NEW}, [0]), 4: ("write_header", {HEADER, DATA}, [0, 1, 2]), 5: ("write_data", {DATA}, [0, 100, 4096]),
         6: ("finish_entry", {HEADER, DATA}, [0]), 7: ("close", None, [0]), 8: ("fail", None, [0]), 9: ("free", None, [0]),
         10: ("error accessors", None, [0]), 11: ("set_bytes_per_block", {NEW}, [0]), 12: ("get_bytes_per_block", ANYST, [0])},
@@ -242,6 +242,9 @@ FIXED_REAL = [
     vfmt([1, 3, 0, [[0, 1], [2, 2], [7, 0], [8, 0]]]),                     # write_disk: file open (DATA), fail, free
     vfmt([1, 1, 0, [[0, 0], [5, 1], [7, 0], [9, 0]]]),                     # writer: format set, write_data in NEW -> FATAL, close
     vfmt([1, 1, 0, [[0, 0], [1, 0], [3, 0], [8, 0], [9, 0]]]),             # writer: open, fail, free without close
+    vfmt([1, 1, 0, [[0, 0], [1, 1], [3, 0], [9, 0]]]),                     # writer: filter that cannot be opened behind an opened client, free
+    vfmt([1, 1, 0, [[0, 0], [1, 1], [3, 0], [7, 0], [9, 0]]]),             # ... close, free
+    vfmt([1, 1, 0, [[0, 0], [1, 0], [1, 1], [3, 0], [4, 0], [7, 0], [9, 0]]]),   # gzip in front of the failing filter
     vfmt([1, 0, 1, [[0, 0], [1, 0], [3, 0], [4, 0], [6, 10], [10, 0], [6, 10], [11, 0]]]),   # reader: read_data after close (gzip)
     vfmt([1, 0, 0, [[0, 0], [1, 0], [3, 0], [4, 0], [6, 10], [3, 0], [6, 10], [11, 0]]]),    # reader: read_data on a failed handle
     vfmt([1, 0, 0, [[0, 0], [3, 0], [3, 0], [11, 0]]]),                    # reader: open_memory twice
